@@ -295,25 +295,39 @@ type arrayPropIter struct {
 	a     *arrayObject
 	limit int
 	idx   int
+	rest  iterNextFunc // the non-index keys, snapshotted when the iteration was created
+	holes []int        // indices that were holes when the iteration was created (ascending): not visited even if filled meanwhile
 }
 
 func (i *arrayPropIter) next() (propIterItem, iterNextFunc) {
 	for i.idx < len(i.a.values) && i.idx < i.limit {
 		name := asciiString(strconv.Itoa(i.idx))
 		prop := i.a.values[i.idx]
+		if len(i.holes) > 0 && i.holes[0] == i.idx {
+			i.holes = i.holes[1:]
+			prop = nil
+		}
 		i.idx++
 		if prop != nil {
 			return propIterItem{name: name, value: prop}, i.next
 		}
 	}
 
-	return i.a.baseObject.iterateStringKeys()()
+	return i.rest()
 }
 
 func (a *arrayObject) iterateStringKeys() iterNextFunc {
+	var holes []int
+	for i, v := range a.values {
+		if v == nil {
+			holes = append(holes, i)
+		}
+	}
 	return (&arrayPropIter{
 		a:     a,
 		limit: len(a.values),
+		rest:  a.baseObject.iterateStringKeys(),
+		holes: holes,
 	}).next
 }
 
